@@ -31,6 +31,18 @@ Order == Ready => /\ (Lt(a, b) \/ Lt(b, a) \/ IKey(m, a) = IKey(m, b))
                   /\ (Le(a, b) /\ Le(b, c) => Le(a, c))
 \* exact durations: equal, ordered and hashed purely by total length, whatever units spell them
 ExactByLength == Ready /\ IsExactI(a) /\ IsExactI(b) => (IEq(a, b) <=> Secs(a) = Secs(b)) /\ (IEq(a, b) <=> IKey(m, a) = IKey(m, b))
+\* beyond the listed properties: the remaining operations on the stored form
+AbsOK == Ready => LET x == IAbs(a) IN
+           /\ IAbs(x) = x /\ x.wk = a.wk
+           /\ (IF x.wk THEN x.w >= 0 ELSE x.y >= 0 /\ x.mo >= 0 /\ x.d >= 0 /\ x.h >= 0 /\ x.mi >= 0 /\ x.s >= 0)
+FloorDivOK == Ready => \A n \in {1, 2, 3, 7, -1, -2} :
+                 LET q == IFloorDiv(a, n)  back == IMul(q, n)
+                     rem(x, y) == IF n > 0 THEN (x - y) \in 0..(n - 1) ELSE (x - y) \in (n + 1)..0
+                 IN IF a.wk THEN q.wk /\ rem(a.w, back.w)
+                    ELSE ~q.wk /\ rem(a.y, back.y) /\ rem(a.mo, back.mo) /\ rem(a.d, back.d) /\ rem(a.h, back.h) /\ rem(a.mi, back.mi) /\ rem(a.s, back.s)
+ToWeeksOK == Ready => LET x == IToWeeks(a)  q == IF x.wk THEN x.w ELSE 0 IN
+                       (a.wk => x = a) /\ (~a.wk => 7 * q <= a.d /\ a.d < 7 * q + 7 /\ (x.wk <=> q # 0) /\ Secs(x) = <<7 * q, 0, 0>>)
+BoolOK == Ready => (IBool(a) <=> a # (IF a.wk THEN Wk(0) ELSE Un(0, 0, 0, 0, 0, 0)))
 On == TRUE
 Off == FALSE
 =============================================================================
